@@ -259,6 +259,51 @@ func c02KindTable(r *an.Run) {
 			table[k] = joinSorted(phiEdgesFrom(phi, c.Target))
 			lastElse = c.Else
 		}
+		// the kind switch as a function of its own: `pred := predicateFor(c.meta.LookupVar(name)); if pred == nil
+		// { generic }` — the table is read off the helper's returns, nil is "not a metavariable"
+		var viaHelper *ssa.Call
+		if phi == nil {
+			for _, c := range an.Calls(f) {
+				call, ok := c.(*ssa.Call)
+				h := an.StaticCallee(c)
+				if !ok || h == nil || !an.InModule(h) || h.Blocks == nil || len(h.Params) != 1 || len(call.Call.Args) != 1 || !isLookup(call.Call.Args[0]) || an.ShortType(call.Type()) != "func(reflect.Type) bool" {
+					continue
+				}
+				viaHelper = call
+				for _, cse := range an.EqCases(h, func(v ssa.Value) bool { return v == ssa.Value(h.Params[0]) }) {
+					k, isc := an.ConstInt(cse.Key)
+					ret := an.ReturnOf(cse.Target)
+					if !isc || ret == nil {
+						continue
+					}
+					if fv, isFn := ret.Results[0].(*ssa.Function); isFn {
+						table[k] = "func:" + short(fv)
+					} else if !an.IsNilConst(ret.Results[0]) {
+						table[k] = an.Describe(ret.Results[0])
+					}
+					if er := an.ReturnOf(cse.Else); er != nil && !an.IsNilConst(er.Results[0]) {
+						if _, more := er.Results[0].(*ssa.Function); more {
+							table[-1] = "a predicate for kinds other than the two"
+						}
+					}
+				}
+				for _, b := range f.Blocks {
+					iff, ok := b.Instrs[len(b.Instrs)-1].(*ssa.If)
+					if !ok {
+						continue
+					}
+					cmp, ok := iff.Cond.(*ssa.BinOp)
+					if !ok || (cmp.Op != token.EQL && cmp.Op != token.NEQ) || cmp.X != ssa.Value(call) || !an.IsNilConst(cmp.Y) {
+						continue
+					}
+					if cmp.Op == token.EQL {
+						lastElse = b.Succs[0]
+					} else {
+						lastElse = b.Succs[1]
+					}
+				}
+			}
+		}
 		r.Check(table[identT] == "func:internal/engine.isIdent", short(f)+"|identifier", f.Pos(), "identifier metavariables use the predicate isIdent (got %q)", table[identT])
 		r.Check(table[exprT] == "func:internal/engine.isExpression", short(f)+"|expression", f.Pos(), "expression metavariables use the predicate isExpression (got %q)", table[exprT])
 		r.Check(len(table) == 2, short(f)+"|kinds", f.Pos(), "exactly the two metavariable kinds get a MetavarMatcher (found %d)", len(table))
@@ -276,7 +321,7 @@ func c02KindTable(r *an.Run) {
 			if !ok {
 				continue
 			}
-			if fa, ok := st.Addr.(*ssa.FieldAddr); ok && fieldNameOf(fa) == "TypeMatches" && phi != nil && st.Val == ssa.Value(phi) {
+			if fa, ok := st.Addr.(*ssa.FieldAddr); ok && fieldNameOf(fa) == "TypeMatches" && (phi != nil && st.Val == ssa.Value(phi) || viaHelper != nil && st.Val == ssa.Value(viaHelper)) {
 				good = true
 			}
 		}
